@@ -700,6 +700,47 @@ def run(chk):
             infos.append(("program", it, cs0, {"inadequate": None, "final_keys": fk, "thresholds": "2 of n"}))
             cases.append({"p": 10, "docs": s.docs, "root": r, "program": prog})
             continue
+        if 40 <= i < 44:
+            # corpus: a delegated role is given a target outside the paths delegated to it and signed by its holder;
+            # sign is then called without going back to the top-level role (no targets editor is open at that moment),
+            # at depth 1 and at depth 2
+            cs0 = i % 2 == 0
+            E = {"op": "expires", "targets": 86400 * 41}
+            if i < 42:
+                prog = [{"op": "new"}, {"op": "add_target", "name": "file1.txt", "content": "one-%d" % i},
+                        {"op": "delegate_role", "name": "role1", "keys": [4], "paths": ["file?.txt"], "threshold": 1,
+                         "expires": 86400 * 40, "version": 1},
+                        {"op": "versions", "targets": 2}, E, {"op": "sign_targets_editor", "keys": [2]},
+                        {"op": "change_delegated_targets", "role": "role1"},
+                        {"op": "add_target", "name": "notes.md", "content": "outside-%d" % i},
+                        {"op": "versions", "targets": 3}, E, {"op": "sign_targets_editor", "keys": [4]}]
+            else:
+                prog = [{"op": "new"}, {"op": "add_target", "name": "top.txt", "content": "top-%d" % i},
+                        {"op": "delegate_role", "name": "A", "keys": [4], "paths": ["a/*"], "threshold": 1,
+                         "expires": 86400 * 40, "version": 1},
+                        {"op": "versions", "targets": 2}, E, {"op": "sign_targets_editor", "keys": [2]},
+                        {"op": "change_delegated_targets", "role": "A"},
+                        {"op": "delegate_role", "name": "B", "keys": [5], "paths": ["a/b/*"], "threshold": 1,
+                         "expires": 86400 * 40, "version": 1},
+                        {"op": "versions", "targets": 3}, E, {"op": "sign_targets_editor", "keys": [4]},
+                        {"op": "change_delegated_targets", "role": "B"},
+                        {"op": "add_target", "name": "a/elsewhere.txt", "content": "outside-%d" % i},
+                        {"op": "versions", "targets": 4}, E, {"op": "sign_targets_editor", "keys": [5]}]
+            prog += [{"op": "versions", "snapshot": 8 + i, "timestamp": 9 + i},
+                     {"op": "expires", "snapshot": 86400 * 51, "timestamp": 86400 * 52},
+                     {"op": "sign_write", "keys": [1, 2, 3], "publish": "all", "link": False}, {"op": "load"}]
+            it = Intent()
+            it.versions = (2, 8 + i, 9 + i)
+            it.top = {"file1.txt": "one-%d" % i} if i < 42 else {"top.txt": "top-%d" % i}
+            if i < 42:
+                it.roles = {"role1": {"targets": {"notes.md": "outside-%d" % i}, "parent": "targets", "keys": [4], "threshold": 1, "version": 3}}
+            else:
+                it.roles = {"A": {"targets": {}, "parent": "targets", "keys": [4], "threshold": 1, "version": 3},
+                            "B": {"targets": {"a/elsewhere.txt": "outside-%d" % i}, "parent": "A", "keys": [5], "threshold": 1, "version": 4}}
+            r = s.root(cs=cs0)
+            infos.append(("program", it, cs0, {"inadequate": None, "final_keys": [1, 2, 3], "outside_paths_no_switch_back": True}))
+            cases.append({"p": 10, "docs": s.docs, "root": r, "program": prog})
+            continue
         if rng.random() < 0.3:
             prog, info = cross_party(rng, i)
             r = s.root(cs=rng.random() < 0.5)
